@@ -24,6 +24,7 @@ PLAN = {
     "C01": {"quick": [J("udp_store", 40000)], "thorough": [J("udp_store", 3000000)]},
     "C02": {"quick": [J("udp_store", 12000), J("http_store", 30000), J("ws_store", 60000)],
             "thorough": [J("udp_store", 500000), J("http_store", 1500000), J("ws_store", 2000000)]},
+    "C04": {"quick": [J("udp_conc", 320, crate="conc")], "thorough": [J("udp_conc", 4000, crate="conc")]},
     "C05": {"quick": [J("validator", 400000)], "thorough": [J("validator", 10000000)]},
     "C07": {"quick": [J("http_store", 60000)], "thorough": [J("http_store", 3000000)]},
     "C08": {"quick": [J("ws_store", 150000)], "thorough": [J("ws_store", 3000000)]},
@@ -53,6 +54,17 @@ PROPS = {
             "assumptions": ["reference tracker of DESIGN.md section 4 is the specification", "sampling, not enumeration"]},
     "C02": {"level": "exploration", "rule": _STORE_RULE, "expect_probes": ["swarm-exceeds-limit", "numwant-nonpositive"],
             "assumptions": ["UDP/WS storage RNG is SmallRng seeded per run (offsets sampled, not enumerated)"]},
+    "C04": {"level": "exploration",
+            "rule": ("one run = one generated program (0-4 sequential pre-operations, then 2-4 threads with 1-3 operations each: announce / stop / "
+                     "scrape of 1-3 torrents / cleaning pass, over 3 torrents of which two share a shard, deadlines straddling the cleaning time) "
+                     "executed under 1500 (quick) or 10000 (thorough) shuttle schedules (PCT depth 1-4 for 80% of the programs, uniform random for "
+                     "the rest); evaluations = schedules whose history was checked for linearizability; every run is non-trivial (>= 2 concurrent "
+                     "threads on shared TorrentMaps); distinct = distinct (program, interleaving) pairs where the interleaving is the sequence of "
+                     "(lock event kind, acting thread) over all RwLock acquisitions, upgrades and releases"),
+            "expect_probes": ["schedules-executed", "lock-acquisitions-that-blocked", "lock-upgrades"],
+            "assumptions": ["lock acquisitions/releases are the complete set of scheduling points (std Arc and atomics are not)",
+                            "the shuttle-backed RwLock models parking_lot's blocking rules (writer preference, one upgradable reader)",
+                            "a history whose linearizability search exceeds its budget is not reported"]},
     "C05": {"level": "exploration",
             "rule": ("one run = one generated sequence of clock advances, per-worker clock refreshes, id issues, honest checks (same / other "
                      "address, before / at / after expiry, stale or advanced worker clocks) and forgeries (1-bit, 2-bit, arbitrary, other "
@@ -100,6 +112,9 @@ TEXT = {
     "C02": {"engine": "sim", "design_ref": "6.C02", "technique": _SIM + " (peer-list clauses checked on every announce reply)",
             "level_text": "Seeded exploration over swarm sizes, requested counts, configured maxima, requester positions and RNG seeds; every reply is checked against the C02 clauses.",
             "level_note": "UDP and WS storage take a concrete SmallRng, so offsets are sampled via seeds rather than enumerated."},
+    "C04": {"engine": "conc", "design_ref": "6.C04", "technique": "seeded schedule exploration (shuttle PCT + random) with a linearizability checker and deadlock detection",
+            "level_text": "Seeded exploration of thread interleavings at lock granularity: the real swarm code runs on 2-4 shuttle threads over a shuttle-backed RwLock; each history (plus a final quiescent sweep) must be linearizable against the reference tracker, and any deadlock reported by shuttle is a violation.",
+            "level_note": "Schedules are sampled (PCT depth <= 4), not enumerated; Arc::get_mut is evaluated under the shard write lock so lock operations are the only scheduling points that matter."},
     "C05": {"engine": "sim", "design_ref": "6.C05", "technique": _SIM + " (simulated whole-second clock per worker, issue x check time grid, forgeries)",
             "level_text": "Seeded exploration of the real ConnectionValidator: several clones with independently sampled clocks, ages 0..u32::MAX, checks placed one second before / at / after expiry, wrong and IPv4-mapped addresses, four forgery kinds.",
             "level_note": "MAC guessing chance 2^-32 per forged id is handled by re-checking under a second key."},
